@@ -85,7 +85,8 @@ MIN_COUNTERS = {
               "yields_in_callable_parallel_execution.py": 14, "cache_invariant_evaluations": 16, "precached_inputs_checked": 12,
               "fd_equiv_checked": 25, "fd_equiv_fd": 6, "fd_equiv_cd": 6, "fd_equiv_cs": 6, "fd_equiv_step_call-scalar": 7,
               "fd_equiv_step_call-array": 3, "fd_equiv_step_call-equal": 3, "fd_equiv_step_ctor": 3, "fd_equiv_step_default": 3,
-              "fd_equiv_subset": 5, "fd_equiv_design_space": 8, "fd_equiv_design_space_normalized": 3, "fd_equiv_on_or_near_ub": 5},
+              "chain_inplace_deepcopy_checked": 6, "chain_inplace_mutator_released_before_another_discipline": 6,
+              "chain_inplace_shared_inputs_observed": 2, "fd_equiv_subset": 5, "fd_equiv_design_space": 8, "fd_equiv_design_space_normalized": 3, "fd_equiv_on_or_near_ub": 5},
     "thorough": {"thread_schedules": 87000, "process_schedules": 1100, "forced_order_honoured": 88000,
                  "distinct_completion_orders_observed_thread": 9400, "distinct_completion_orders_observed_process": 270,
                  "distinct_out_of_order_completions_observed_thread": 9300, "distinct_out_of_order_completions_observed_process": 260,
@@ -98,7 +99,8 @@ MIN_COUNTERS = {
                  "yields_in_callable_parallel_execution.py": 200, "cache_invariant_evaluations": 215, "precached_inputs_checked": 185,
                  "fd_equiv_checked": 300, "fd_equiv_fd": 90, "fd_equiv_cd": 90, "fd_equiv_cs": 90, "fd_equiv_step_call-scalar": 90,
                  "fd_equiv_step_call-array": 45, "fd_equiv_step_call-equal": 45, "fd_equiv_step_ctor": 45, "fd_equiv_step_default": 45,
-                 "fd_equiv_subset": 70, "fd_equiv_design_space": 140, "fd_equiv_design_space_normalized": 60, "fd_equiv_on_or_near_ub": 100},
+                 "chain_inplace_deepcopy_checked": 40, "chain_inplace_mutator_released_before_another_discipline": 50,
+                 "chain_inplace_shared_inputs_observed": 15, "fd_equiv_subset": 70, "fd_equiv_design_space": 140, "fd_equiv_design_space_normalized": 60, "fd_equiv_on_or_near_ub": 100},
 }
 SHARD_TIMEOUT = {"quick": 400, "thorough": 2400}
 N_SHARDS = 16
@@ -194,9 +196,10 @@ def _discipline_classes():
     class ChainDisc(Discipline):
         """y<k> = c x^2 + d z ; optional shared output s = e x + z."""
 
-        def __init__(self, k, c, d, e, with_s, use_z=True):
+        def __init__(self, k, c, d, e, with_s, use_z=True, mutate=None):
             super().__init__(name=f"C{k}")
             self.k, self.c, self.d, self.e, self.with_s, self.use_z = k, c, d, e, with_s, use_z
+            self.mutate = mutate  # None | "scale" (x *= 2) | "set0" (x[0] = 7.5): works in place on its own input arrays
             self.gates = None
             self.phase = "run"
             ins = ["x"] + (["z"] if use_z else [])
@@ -204,6 +207,15 @@ def _discipline_classes():
             self.io.input_grammar.update_from_names(ins)
             self.io.output_grammar.update_from_names(outs)
             self.io.input_grammar.defaults = {n: np.zeros(2) for n in ins}
+
+        def mutated(self, x):
+            """What this discipline makes of its own copy of x before computing."""
+            x = np.array(x, dtype=float)
+            if self.mutate == "scale":
+                x *= 2.0
+            elif self.mutate == "set0":
+                x[0] = 7.5
+            return x
 
         def values(self, x, z):
             out = {f"y{self.k}": self.c * x**2 + (self.d * z if self.use_z else 0.0)}
@@ -227,7 +239,12 @@ def _discipline_classes():
             if gated:
                 self.gates.enter(self.k)
             try:
-                return self.values(input_data["x"], input_data["z"] if self.use_z else None)
+                x = input_data["x"]
+                if self.mutate == "scale":
+                    x *= 2.0
+                elif self.mutate == "set0":
+                    x[0] = 7.5
+                return self.values(x, input_data["z"] if self.use_z else None)
             finally:
                 if gated:
                     self.gates.leave(self.k)
@@ -837,11 +854,13 @@ def run_chain(case, rep):
     threads = backend == "thread"
     additive = case["cls"] == "additive"
     with_s = additive or case.get("overlap", False)
+    mutate = case.get("mutate") or [None] * n
+    mutating = any(mutate)
     rep.case(("chain", case["cls"], backend, n, case["w"], tuple(case["order"]), tuple(case["order_jac"]),
-              bool(case.get("overlap")), bool(case.get("deep_copy"))), True)
+              bool(case.get("overlap")), bool(case.get("deep_copy")), tuple(mutate)), True)
 
     def make():
-        return [C(k, *case["coefs"][k], with_s, use_z=case["use_z"][k]) for k in range(n)]
+        return [C(k, *case["coefs"][k], with_s, use_z=case["use_z"][k], mutate=mutate[k]) for k in range(n)]
 
     x, z = np.array(case["x"]), np.array(case["z"])
     data = {"x": x.copy(), "z": z.copy()}
@@ -852,7 +871,8 @@ def run_chain(case, rep):
         chain = MDOParallelChain(discs, use_threading=threads, n_processes=case["w"], use_deep_copy=bool(case.get("deep_copy")))
     feats = f"{case['cls']}:{backend}"
     # closed form and sequential twin
-    vals = [d.values(x, z) for d in discs]
+    # a discipline working in place on its inputs does so on ITS OWN copy: every discipline starts from the original x
+    vals = [d.values(d.mutated(x), z) for d in discs]
     jacs = [d.jacobians(x, z) for d in discs]
     exp = {}
     for v in vals:
@@ -875,18 +895,26 @@ def run_chain(case, rep):
     for d in make():
         out = d.execute({"x": x.copy(), "z": z.copy()})
         twin.update({k: out[k] for k in d.io.output_grammar})
+        if mutating:
+            continue
         d.linearize({"x": x.copy(), "z": z.copy()}, compute_all_jacobians=True)
         for o in d.io.output_grammar:  # last writer wins for the whole row
             twin_j[o] = {i: dense(b) for i, b in d.jac[o].items()}
     if additive:
         twin["s"] = exp["s"]
         twin_j["s"] = exp_j["s"]
+    if mutating:
+        twin_j = exp_j
     if not map_eq(twin, exp) or set(twin_j) != set(exp_j) or any(set(twin_j[o]) != set(exp_j[o]) for o in exp_j) \
             or not jac_eq(twin_j, exp_j, tol=1e-13):
         rep.inconclusive("harness: sequential twin of the chain differs from the closed form")
         return
     finish = {}
-    for phase, order in (("run", case["order"]), ("jac", case["order_jac"])):
+    # in-place mutating disciplines: only the execution is judged (the point at which such a discipline is linearized is
+    # not defined); without independent copies (use_deep_copy=False, MDOAdditiveChain) sharing is documented: observe only
+    judged = not mutating or (not additive and bool(case.get("deep_copy")))
+    phases = (("run", case["order"]),) if mutating else (("run", case["order"]), ("jac", case["order_jac"]))
+    for phase, order in phases:
         gates = sc.Gates(n, backend)
         for d in discs:
             d.gates, d.phase = gates, phase
@@ -900,6 +928,11 @@ def run_chain(case, rep):
         except Exception as e:  # noqa: BLE001
             gates.release_all()
             ctl.join(120)
+            if not judged:
+                rep.count("chain_inplace_shared_inputs_observed")
+                rep.observe("chain-without-independent-input-copies-and-in-place-mutating-discipline-raises",
+                            {"cls": case["cls"], "backend": backend, "error": repr(e)[:160]})
+                return
             rep.violation(f"C13:{type(chain).__name__}:{phase}-raises:{type(e).__name__}:{feats}", "parallel chain == sequential", case,
                           brief(e), "outputs")
             return
@@ -921,6 +954,24 @@ def run_chain(case, rep):
     if key not in _STATE["orders"][backend]:
         _STATE["orders"][backend].add(key)
         rep.count("distinct_chain_release_orders")
+    if mutating:
+        pos = {k: i for i, k in enumerate(case["order"])}
+        if any(mutate[a] and pos[a] < pos[b] for a in range(n) for b in range(n) if a != b):
+            rep.count("chain_inplace_mutator_released_before_another_discipline")
+        if not judged:
+            rep.count("chain_inplace_shared_inputs_observed")
+            if not map_eq(out, exp):
+                rep.observe("chain-without-independent-input-copies-in-place-mutation-seen-by-other-disciplines",
+                            {"cls": case["cls"], "backend": backend, "deep_copy": bool(case.get("deep_copy"))})
+            return
+        rep.count("chain_inplace_deepcopy_checked")
+        if not map_eq(out, exp):
+            rep.violation(f"C13:MDOParallelChain._execute:in-place-input-mutation-leaks-to-other-disciplines:use_deep_copy:{backend}",
+                          "with use_deep_copy=True every discipline sees the original inputs (== each discipline executed alone on its own copy)",
+                          case, brief({k: out.get(k) for k in exp}), brief(exp))
+        elif not (arr_eq(out.get("x"), x) and arr_eq(out.get("z"), z)):
+            rep.observe("chain-input-data-modified-by-an-in-place-discipline", brief({"x": out.get("x"), "z": out.get("z")}))
+        return
     if not map_eq(out, exp):
         rep.violation(f"C13:{type(chain).__name__}._execute:outputs-differ-from-sequential:{feats}", "chain outputs equal the sequential ones",
                       case, brief({k: out.get(k) for k in exp}), brief(exp))
@@ -1559,6 +1610,37 @@ def e2e_universe(tier, seed):
                     "pool": pool, "picks": [rng.randrange(npool) for _ in range(n)],
                     "precached": [npool] if rng.random() < 0.5 else [], "delay": 0.003, "yield_seed": 0})
     out.extend(fd_equiv_universe(tier, seed))
+    out.extend(chain_inplace_universe(tier, seed))
+    return out
+
+
+def chain_inplace_universe(tier, seed):
+    """Chains whose disciplines share input names and some of which work in place on their input arrays."""
+    rng = random.Random(subseed(seed, PID, "chain_inplace"))
+    out = []
+    for k in range(120 if tier == "thorough" else 14):
+        n = rng.randint(2, 4)
+        r = k % 7
+        cls, deep, backend = "parallel", True, "thread"
+        if r == 4:
+            backend = "process"
+        elif r == 5:
+            deep = False  # observed only
+        elif r == 6:
+            cls, deep = "additive", False  # MDOAdditiveChain has no use_deep_copy: observed only
+        w = rng.choice([1, 2, 3, None]) if backend == "thread" else rng.choice([2, 3])
+        mutate = [rng.choice([None, None, "scale", "set0"]) for _ in range(n)]
+        if not any(mutate):
+            mutate[rng.randrange(n)] = "scale"
+        if all(mutate):
+            mutate[rng.randrange(n)] = None
+        order = list(sc.random_feasible_order(rng, n, w or n))
+        out.append({"kind": "chain", "cls": cls, "backend": backend, "n": n, "w": w, "overlap": cls == "parallel" and rng.random() < 0.3,
+                    "deep_copy": deep, "mutate": mutate,
+                    "coefs": [[round(rng.uniform(0.5, 2), 2), round(rng.uniform(-2, 2), 2), round(rng.uniform(-1, 1), 2)] for _ in range(n)],
+                    "use_z": [True] + [rng.random() < 0.6 for _ in range(n - 1)],
+                    "x": [round(rng.uniform(0.5, 2), 3) for _ in range(2)], "z": [round(rng.uniform(-2, 2), 3) for _ in range(2)],
+                    "order": order, "order_jac": list(range(n))})
     return out
 
 
@@ -1593,6 +1675,12 @@ def directed_cases():
         {"kind": "cache", "cache": "memory", "backend": "thread", "mode": "execute", "w": 4, "pool": [[1.0, 0.5], [2.0, -1.0]],
          "picks": [0, 0, 0, 0], "precached": [1], "yield_seed": 11},
     ]
+    # use_deep_copy=True with a discipline scaling its input in place, released first (one worker, two workers)
+    chm = {"kind": "chain", "cls": "parallel", "backend": "thread", "n": 2, "overlap": False, "deep_copy": True, "mutate": ["scale", None],
+           "coefs": [[1.0, 0.5, 0.2], [2.0, -1.0, 0.3]], "use_z": [True, True], "x": [1.0, 2.0], "z": [0.5, -0.5],
+           "order": [0, 1], "order_jac": [0, 1]}
+    e2e += [dict(chm, w=1), dict(chm, w=2), dict(chm, w=2, mutate=["set0", None, "scale"], n=3, order=[0, 2, 1], order_jac=[0, 1, 2],
+                                                 coefs=chm["coefs"] + [[0.7, 1.0, -0.4]], use_z=[True, True, False])]
     # derivative approximation: a scalar step given at call time that differs from the constructor / default step
     fdq = {"kind": "fd_equiv", "dim": 2, "w": 2, "a": [1.0, -0.5], "space": None, "x": [1.0, 2.0], "indices": []}
     e2e += [
